@@ -25,6 +25,12 @@ CHECKS = {
  'C17': ('E1 product', 'exhaustive enumeration of all element pairs x cutoff sides x image placements, plus assemblies under shift/permutation, against a minimum-image reference',
          'All 4753 unordered pairs of the 97 tabulated symbols x {cutoff-1e-3, cutoff+1e-3} x 7 placements (inside, low/high face, edge, corner) x 4 cells (none, cubic, triclinic +/-) x both atom orders; 4 mixed assemblies in 6 cells under shift-and-wrap and 4 permutations, against ref_bonds over images -2..2.',
          'Radius / non-metal tables frozen at the pinned commit. Trusted: numpy, mc/ref/bonds.py.', '3/C17'),
+ 'C18': ('E1 product', 'exhaustive enumeration of the whole UFF type table (pairs, triples, quadruples) against vectorised reference equations',
+         'Finite domain (221 types): all 221^2 ordered pairs x 4 bond orders x 3 rule sets; all 221^3 ordered triples plus explicit bond orders on a 45^3 sub-table; quadruples: quick all 221^2 central pairs x 20^2 outer class representatives (both directions), thorough all 221^4 ordered quadruples; 5 further multiplicities; all 221 pair coefficients. Values within 1e-9 relative of mc/ref/uff.py, finiteness, positivity, style and (b,n), torsion case table incl. None / unsupported, reversal.',
+         'The UFF4MOF table is the parameter of the property; reference equations written from Rappe et al. 1992. Reversal identity is read as 1e-9 relative (DESIGN section 2).', '3/C18'),
+ 'C19': ('E1 product', 'exhaustive enumeration of labelled bond graphs x presentations and of graphs x type assignments x exclusion sets x renamings against set definitions and the reference equations',
+         'Enumeration: all 263 (quick, n<=5) / 4224 (thorough, n<=6) labelled triangle-free graphs without isolated vertices x 7+ bond-list presentations. Typing: all 26 graphs n<=4 x all 6^n assignments of a 6-type alphabet x every exclusion subset x 3 term-list presentations x renamings, and 237 graphs n=5 x 16 covering assignments; partition = reversal-canonical sequence (+M), coefficient text = documented format of the reference values, None-torsions dropped, unsupported refused, retype/pair tables.',
+         'Torsion multiplicity M is counted before exclusion (implementation-documented). Trusted: networkx-free reference in mc/checks/C19.py, mc/ref/uff.py.', '3/C19'),
 }
 
 NOT_YET = {}
